@@ -246,6 +246,17 @@ def main(argv=None):
                                 tag="-" + str(reported))
         print(f"  {vv['kind']} [{vv['cls']}] {vv['detail']}")
         print(f"  minimal ops: {json.dumps(mops)[:300]}")
+        # the replay file must reproduce in a fresh interpreter under
+        # another hash seed (DESIGN 3.9)
+        if ok:
+            env = dict(os.environ, PYTHONHASHSEED="271828")
+            rp2 = subprocess.run(
+                [sys.executable, "-B", "-m", "sim.cli", pid, tier,
+                 "--replay", path], cwd=ROOT, env=env, capture_output=True,
+                text=True, timeout=1800)
+            if rp2.returncode != 1:
+                harness.append(f"replay {path} did not reproduce in a fresh "
+                               f"interpreter (rc {rp2.returncode})")
         if not ok:
             print("  (did not reproduce in isolation; original op list kept)")
         print(f"VIOLATION property={pid} replay={path}")
